@@ -201,3 +201,9 @@ reg("C08",
     "TLA+ spec Frames.tla; TLC exhaustive check that the frame-composition design satisfies the relations and wrong designs do not + TLC-emitted "
     "compositions replayed on the real classes + TLC batch validation (M3) of recorded renders",
     "DESIGN.md §4 C08")
+
+reg("C14",
+    "Parsers.tla states, per entry point, the documented outcome set (Allowed) and a character-level grammar predicting the outcome class (Color.parse: RE_COLOR + int()/range rules incl. Unicode decimal digits vs superscripts; Style.parse: fold over words incl. normal form; Console.get_style; markup: Markup.tla's tag lexer + closing-tag matching through Style.normalize). TLC model-checks the grammar's own sanity (Predicted within Allowed, layering of colour/style/get_style, normal form a fixed point, about 60 unit assumptions, every (entry, predicted class) reachable) and enumerates every token sequence over per-entry alphabets of 14-36 syntax-significant fragments up to length 4 (quick) / 5 (thorough), also inside 3-4 syntactic contexts. Each sequence (207k quick / 3.1M thorough) is fed to the real entry point (Color.parse, Style.parse, get_style with/without default, markup.render, Console.print with/without markup on two consoles, AnsiDecoder.decode, Text) and TLC judges the observed exception class: outside Allowed = violation, allowed but not predicted = drift. 2,500 / 40,000 seeded random Unicode strings (astral, controls, combining, bidi, digits of 15 scripts and No/Nl numerics, 4301-6000-character runs, 26 syntax templates) go to all 9 entry points (property part only). 410 / 7,150 trees of built-in renderables with valid options (layout_gen + option stress + boundary recipes) are rendered, printed and measured at 19 widths from 1 to 200; TLC requires outcome ok at every width >= 1. Bounded conformance testing judged by TLC, not a proof; 'every string' is approximated by the token bound plus sampling.",
+    "Trusted: drivers/c14.py:describe (exception class name, isinstance facts for the four documented classes, raising frame), layout_gen.build. Assumptions: StringIO consoles (stream encoding errors outside), surrogate-free strings <= ~6000 characters, trees of nesting <= 4 (RecursionError/MemoryError from absurd sizes outside), 60 s / 120 s call deadline recorded as NoTermination; excluded options: Rule(characters of zero width) (documented ValueError), non-positive widths/paddings, Bar begin/end outside 0..size; layout_gen's user-defined wrapper kinds unwrapped. Name tables (ANSI_COLOR_NAMES, default theme) read from the tree under test.",
+    "TLA+ spec Parsers.tla (+ Markup.tla lexer); TLC exhaustive enumeration of token sequences with grammar sanity invariants and per-class action coverage (M1/M2); every enumerated input replayed on the real parsers; TLC record validation of outcome classes with drift channel (M3); random Unicode and random renderable trees judged by TLC with batched delta-debugged witnesses",
+    "DESIGN.md §4 C14")
